@@ -3,6 +3,8 @@
 # to a scratch worktree of /repo HEAD) and record exit code + violation keys in seeded/RESULTS.txt.  Expected: exit 1 everywhere.
 cd "$(dirname "$0")/.."
 names=("$@"); [ ${#names[@]} -eq 0 ] && names=($(ls seeded | grep -v RESULTS))
+# seeds made harmless by a later repair of /repo are kept for the record but not run
+keep=(); for n in "${names[@]}"; do python3 -c "import json,sys;sys.exit(1 if json.load(open('seeded/$n/meta.json')).get('obsolete') else 0)" && keep+=("$n"); done; names=("${keep[@]}")
 PAR=${PAR:-3}
 run_one() {
   n=$1; id=$(python3 -c "import json;print(json.load(open('seeded/$n/meta.json'))['property'])")
